@@ -307,7 +307,9 @@ def check(case):
             ha, hb = np.array(m0.h_field[0]), np.array(m1.h_field[0])
             de = np.linalg.norm(ea - eb) / np.linalg.norm(ea)
             dh = np.linalg.norm(ha - hb) / np.linalg.norm(ha)
-            if de > tol or dh > tol:
+            # the program differentiates the potentials numerically over 0.001 wavelength, which amplifies the
+            # (allowed) differences of the currents: three times the tolerance of the currents
+            if de > 3 * tol or dh > 3 * tol:
                 fails.append(('near-field' + suffix, 'near field at %s differs: E %.3g, H %.3g (tol %.2g)' % ([float(x) for x in p], de, dh, tol)))
                 break
     return Result(fails=fails, nontrivial=nt, labels=sorted(set(labels)))
